@@ -175,10 +175,10 @@ where
         let start_time = Instant::now();
 
         // Main Loop
-        loop {
+        let result = loop {
             // 1. Check for timeout
             if start_time.elapsed() > timeout {
-                return Err(PlanningError::Timeout);
+                break Err(PlanningError::Timeout);
             }
 
             // 2. Sample a state (q_rand)
@@ -227,10 +227,14 @@ where
                 // 7. Check if the new node satisfies the goal
                 if goal.is_satisfied(&q_new) {
                     println!("Solution found after {} nodes.", self.tree.len());
-                    return Ok(self.reconstruct_path(self.tree.len() - 1));
+                    break Ok(self.reconstruct_path(self.tree.len() - 1));
                 }
             }
-        }
+        };
         // TODO: Limit iteration counts and add Err(PlanningError::NoSolutionFound)
+
+        // Hand the generator back so that later calls continue the same (seeded) stream.
+        self.rng = Some(rng);
+        result
     }
 }
